@@ -193,7 +193,7 @@ struct Client : simk::Actor {
 	size_t sent = 0, segi = 0; std::string in; bool eof_seen = false; bool faulted = false;
 	size_t cap_to_server = 4096, cap_to_client = 4096; std::vector<int> read_pace; size_t rpi = 0;
 	int read_delay_ms = 0; int64_t rhold_until = -1; int n_read_pauses = 0;   // a slow reader: pause after every read (below the inactivity time-out), as long as data keeps coming
-	int64_t deadline = -1; int64_t timeout_us = 120LL*1000000; int64_t bad_wait_us = 40LL*1000000; int start_delay_us = 0; int64_t t_created = 0;
+	int64_t deadline = -1; int64_t timeout_us = 120LL*1000000; int64_t bad_wait_us = 40LL*1000000; int64_t start_delay_us = 0; int64_t t_created = 0;
 	simk::Rng rng; int n_pauses = 0;
 	const char *name() override { return "client"; }
 	Exchange &E(){ return ex[cur]; }
@@ -430,6 +430,11 @@ struct E1 : Engine {
 				if(bad_conn && i == nreq-1){ e["mut"] = gen_mutation(r,proto); if(prop == "C12"){ static const char *up[] = {"mp_cut","mp_cut","mp_cut","mp_no_final_boundary","mp_bad_part_header","mp_no_name","cl_bigger","cl_over_limit","truncate"}; e["mut"]["op"] = up[r.below(9)]; } if(e.gets("kind") == "writer"){ e["kind"] = "echo"; e["req"] = gen_req(r,prop,thorough,async_mount,i); } }
 				exs.push(e); }
 			c["ex"] = exs; conns.push(c); }
+		// late staller (C02): the first connection stalls in the middle of its request head and is cut by the inactivity watchdog; long after that - when the server has been
+		// idle - another peer does the same and must be cut as well
+		if(prop == "C02" && !conns.a.empty() && r.below(5) == 0){ int T = (int)cfg.geti("http_timeout",10);
+			auto staller = [&](J c,int delay_s){ c["proto"] = 0; c["start_delay_us"] = (long long)delay_s * 1000000; c["pipeline"] = 0; J e = c.get("ex").a.empty() ? J::obj() : c.get("ex").a[0]; if(!e.has("req")){ e["kind"] = "echo"; e["req"] = gen_req(r,prop,thorough,false,0); e["tag"] = "qL" + std::to_string(delay_s); e["seg"] = J::arr(); } e["kind"] = "echo"; J m = J::obj(); m["op"] = "truncate"; m["pos"] = (long long)(5 + r.below(30)); m["n"] = 1; m["byte"] = 0; m["len"] = 0; m["after"] = "wait"; e["mut"] = m; e["seg_delay_ms"] = J::arr(); J ex = J::arr(); ex.push(e); c["ex"] = ex; return c; };
+			conns.a[0] = staller(conns.a[0],0); conns.push(staller(conns.a[0],T + 3 + (int)r.below(T + 4))); p["late_staller"] = 1; }
 		p["conns"] = conns;
 		return p;
 	}
@@ -438,12 +443,12 @@ struct E1 : Engine {
 	// ---- malformed requests (C02): a valid encoding is mutated; "pos" values are taken modulo the length
 	static J gen_mutation(simk::Rng &r,int proto){
 		J m = J::obj(); unsigned x = r.below(100);
-		static const char *generic[] = {"truncate","truncate","flip","insert","delete","garbage","dup_tail","mp_no_final_boundary","mp_bad_part_header","mp_no_name","mp_cut","fold_insert","fold_insert"};
+		static const char *generic[] = {"truncate","truncate","flip","insert","delete","garbage","dup_tail","mp_no_final_boundary","mp_bad_part_header","mp_no_name","mp_cut","fold_insert","fold_insert","odd_cookie","odd_cookie"};
 		static const char *http_m[] = {"cl_negative","cl_huge","cl_nonnumeric","cl_duplicate","cl_bigger","cl_smaller","header_16k","bare_lf","nul_in_header","no_version","bad_uri","no_colon","header_spaces","cl_over_limit","odd_target","odd_target"};
 		static const char *scgi_m[] = {"len_bigger","len_smaller","no_comma","no_final_nul","len_nondigit","len_huge","len_negative","cl_negative","cl_bigger","cl_smaller","odd_fields","cl_over_limit"};
 		static const char *fcgi_m[] = {"bad_version","unknown_type","bad_role","params_wrong_id","record_len_lie","pair_len_overflow","stdin_longer","stdin_shorter","get_values","get_values_then_request","abort_request","params_never_closed","stray_record_in_params","cl_negative","begin_short","stdin_before_params","cl_over_limit"};
 		std::string op;
-		if(x < 45) op = generic[r.below(13)];
+		if(x < 45) op = generic[r.below(15)];
 		else if(proto == 0) op = http_m[r.below(16)]; else if(proto == 1) op = scgi_m[r.below(12)]; else op = fcgi_m[r.below(17)];
 		m["op"] = op; m["pos"] = (long long)r.below(1000000); m["n"] = (int)(1 + r.below(8)); m["byte"] = (int)r.below(256); m["len"] = (int)r.below(3000);
 		static const char *afters[] = {"close","halfclose","halfclose","wait","reset"}; m["after"] = afters[r.below(5)];
@@ -500,6 +505,10 @@ struct E1 : Engine {
 		else if(op == "bare_lf"){ for(size_t i=0;i+1<w.size() && (hdr_end == std::string::npos || i < hdr_end + 4);i++) if(w[i] == '\r' && w[i+1] == '\n'){ w.erase(i,1); if(hdr_end != std::string::npos) hdr_end--; } }
 		else if(op == "nul_in_header"){ size_t h = w.find("\r\n"); if(h != std::string::npos) w.insert(h+2,std::string("X-Nul: a\0b\r\n",12)); }
 		else if(op == "no_version"){ size_t h = w.find(" HTTP/1."); size_t eol = w.find("\r\n"); if(h != std::string::npos && eol != std::string::npos) w.erase(h,eol-h); }
+		else if(op == "odd_cookie"){   // Cookie headers at the edge of (and beyond) the grammar: empty values followed by blanks, missing names, separators in odd places, unterminated quotes
+			static const char *cookies[] = {"theme= ; sid=42","a= ","a=;b","=v","a",";;","a=\"unterminated","a=1,b=2","$Version=1; a=b; $Path=/","a =b","a= b ;c = d"," ; ","a=\"q\\\"q\" ; b=","a==;=;","a=\t; b=\t\t,c= ,"};
+			Req q2 = q; q2.cookies.clear(); q2.cookie_quoted.clear(); q2.headers.push_back({"Cookie",cookies[(size_t)(m.geti("pos") % 15)]}); q2.fold.push_back(0);
+			if(proto == 0) w = http_encode(q2,http11,e.keepalive); else w = reencode(cgi_env(q2,proto,http11),q2.body,proto,e); }
 		else if(op == "odd_target"){   // request targets other than the origin form (RFC 7230 5.3): absolute form with and without a path, authority form, asterisk form, empty, no leading slash, blanks
 			static const char *targets[] = {"http://example.com","http://example.com/","http://example.com?x=1","http://","http:","http://example.com/s/echo?a=b","https://h:443","example.com:80","*","","s/echo","//","/s/echo /x","?","#","http://[::1","\t/s/echo"};
 			size_t sp = w.find(' '); size_t sp2 = sp == std::string::npos ? sp : w.find(' ',sp+1); size_t eol = w.find("\r\n"); if(sp != std::string::npos && sp2 != std::string::npos && eol != std::string::npos && sp2 < eol) w.replace(sp+1,sp2-sp-1,targets[(size_t)(m.geti("pos") % 17)]); }
@@ -620,7 +629,7 @@ struct E1 : Engine {
 				const J &conns = plan.get("conns");
 				for(size_t ci=0;ci<conns.size() && ci<8;ci++){ const J &jc = conns.a[ci]; auto cl = std::unique_ptr<Client>(new Client); cl->proto = (int)(((jc.geti("proto") % 3) + 3) % 3); cl->addr = cl->proto == 0 ? "tcp:8080" : cl->proto == 1 ? "tcp:8081" : "tcp:8082";
 					cl->cap_to_server = (size_t)std::max<int64_t>(1,std::min<int64_t>(jc.geti("cap_to_server",4096),1<<20)); cl->cap_to_client = (size_t)std::max<int64_t>(1,std::min<int64_t>(jc.geti("cap_to_client",4096),1<<20));
-					const J &rp = jc.get("read_pace"); for(size_t i=0;i<rp.size();i++) cl->read_pace.push_back((int)rp.a[i].as_int()); cl->read_delay_ms = (!jc.geti("async") || plan.get("conns").size() != 1) ? 0 : (int)std::max<int64_t>(0,std::min<int64_t>(jc.geti("read_delay_ms"),std::max<int64_t>(1,cfg.geti("http_timeout",10))*450)); cl->start_delay_us = (int)std::max<int64_t>(0,std::min<int64_t>(jc.geti("start_delay_us"),10000000)); cl->t_created = simk::now_us(); cl->rng.seed(sp.fault_seed + ci);
+					const J &rp = jc.get("read_pace"); for(size_t i=0;i<rp.size();i++) cl->read_pace.push_back((int)rp.a[i].as_int()); cl->read_delay_ms = (!jc.geti("async") || plan.get("conns").size() != 1) ? 0 : (int)std::max<int64_t>(0,std::min<int64_t>(jc.geti("read_delay_ms"),std::max<int64_t>(1,cfg.geti("http_timeout",10))*450)); cl->start_delay_us = (int64_t)std::max<int64_t>(0,std::min<int64_t>(jc.geti("start_delay_us"),100000000)); cl->t_created = simk::now_us(); cl->rng.seed(sp.fault_seed + ci);
 					const J &exs = jc.get("ex"); for(size_t i=0;i<exs.size() && i<6;i++){ cl->ex.emplace_back(); build_exchange(exs.a[i],jc,cl->ex.back(),cl->proto); for(auto &d:cl->ex.back().seg_delay_ms) d = (int)std::min<int64_t>(d,std::max<int64_t>(1,cfg.geti("http_timeout",10))*450); }
 					// HTTP/1.1 pipelining: the next request is sent right behind the previous one, before its response has been read
 					if(jc.geti("pipeline") && cl->proto == 0 && jc.geti("http11") && jc.geti("keepalive")){
